@@ -268,6 +268,12 @@ func argIndexLE(e *Env, v ssa.Value) (LE, bool) {
 		if strings.HasSuffix(t, ".VMInput.Arguments") || t == "P:args" {
 			return e.LE(x.Index), true
 		}
+		// an element of a sub-slice of the arguments handed to a per-token helper: args[a:b][i] is args[a+i]
+		if be, base, off, ok := e.sliceBase(x.X, 0); ok {
+			if bt := be.Term(base); strings.HasSuffix(bt, ".VMInput.Arguments") || bt == "P:args" {
+				return off.plus(e.LE(x.Index)), true
+			}
+		}
 	case *ssa.Parameter:
 		if a, pe := e.actual(x); a != nil {
 			return argIndexLE(pe, a)
@@ -377,7 +383,11 @@ func ledgerTables(c *Ctx, name string, r Registration) (map[string]roleTable, []
 				if sl, ok := call.Call.Args[2].(*ssa.Phi); ok {
 					for _, ed := range sl.Edges {
 						if s2, ok := ed.(*ssa.Slice); ok && s2.Low != nil {
-							if f, _, ok := classifyIndex(s.Env.LE(s2.Low), 0); ok {
+							low := s.Env.LE(s2.Low)
+							if _, _, off, ok := s.Env.sliceBase(s2.X, 0); ok {
+								low = off.plus(low) // a re-slice of a sub-slice of the arguments: absolute position
+							}
+							if f, _, ok := classifyIndex(low, 0); ok {
 								tabs[side].add("callArgsFrom", f)
 								if name == "ESDTTransfer" {
 									tabs["destination"].add("callArgsFrom", f)
